@@ -24,10 +24,14 @@ EXPLANATION = (
     "tuple()/join/unpacking/pop()/next(iter()) is followed through names, containers, derived sequences and nested loops to "
     "its consumers: membership, any/all/len/sum/min/max/sorted/set/Counter, Add/Mul, set.add/update, keyed stores, commutative "
     "accumulation, diagnostics and pop() of a set established to have one element end the taint; return/yield, indexing, "
-    "arguments of other functions, per-element effects, order-sensitive comparison are sinks; an in-place list.sort() ends "
+    "arguments of other functions, per-element effects, order-sensitive comparison are sinks; sorted()/sort()/min()/max() end "
+    "the taint only when their key separates any two elements - the key function is evaluated on a symbolic element and "
+    "every returned key must contain the element itself or its dummy_index (sort_idx_canonical does, (space, spin) or a name "
+    "does not: ties keep the hash order); an in-place list.sort() with such a key ends "
     "the taint of the list for the reads it dominates, a dict built from the elements is only tainted for reads of its order "
     "(not for look-ups by key). A read that reaches a sink is discharged only by order-permuting differential evaluation: "
-    "evaluate_deltas, transform_to_spatial_orbitals, TensorNames.rename_tensors and _group_objects are evaluated (helpers looked "
+    "evaluate_deltas, transform_to_spatial_orbitals, TensorNames.rename_tensors, _group_objects and RegisteredIntermediate."
+    "expand_itmd are evaluated with the hash-order provenance of sa.symex (set_order / iter_log, helpers looked "
     "into) on model inputs once per iteration order of every set; the read must be reached with permuted elements and every "
     "scenario must return the same result - a differing result is itself reported with the two results. R19b: every derivation function "
     "(ground state, intermediate states, secular matrix, properties, Operators.operator) is evaluated for small orders with a "
@@ -436,6 +440,57 @@ class SetOrder:
             return out
         return [e]
 
+    # ------------------------------------------------------------ sort keys
+    def total_key(self, call):
+        """The ``key`` of a sorted()/sort()/min()/max() call separates any two distinct elements: only then is the result
+        independent of the order in which the elements arrive (ties keep the arrival order / the first one wins)."""
+        k = kwarg(call, "key")
+        if k is None or (isinstance(k, ast.Constant) and k.value is None):
+            return True
+        roots = self.cg.functions_of_expr(k, call)
+        return bool(roots) and all(self._separates(f) for f in roots)
+
+    def _separates(self, f):
+        """the key function evaluated on a symbolic element: every returned key contains the element itself or its
+        ``dummy_index`` (unique per sympy Dummy / Index object)"""
+        if not hasattr(self, "_sep"):
+            self._sep = {}
+        if id(f) in self._sep:
+            return self._sep[id(f)]
+        self._sep[id(f)] = False
+        e = sym("element")
+        sx = Symex(self.model, inline=lambda q: True, what="sort key", max_paths=64)
+        try:
+            if isinstance(f, ast.Lambda):
+                def body():
+                    return sx.call_value(Func(f, [], f._module, "<lambda>"), [e], {}, f)
+                outs = sx._explore(body)
+            else:
+                prm = [a.arg for a in f.args.posonlyargs + f.args.args if a.arg not in ("self", "cls")]
+                if not prm:
+                    return False
+                outs = sx.run(f, lambda: {prm[0]: e})
+        except AnalysisError:
+            return False
+
+        def of_element(x):
+            while isinstance(x, T) and x.op in ("item", "attr", "elem"):
+                x = x.args[0]
+            return x == e
+
+        def sep(v):
+            if isinstance(v, (tuple, list)):
+                return any(sep(x) for x in v)
+            if isinstance(v, T):
+                if v == e:
+                    return True
+                if v.op == "attr" and v.args[1] == "dummy_index" and of_element(v.args[0]):
+                    return True
+            return False
+        rets = [o for o in outs if o.kind == "return"]
+        self._sep[id(f)] = bool(rets) and all(sep(o.value) for o in rets)
+        return self._sep[id(f)]
+
     # ------------------------------------------------------------ sites
     def sites(self, fn):
         """(expression that is the unordered collection, node that reads it in order)"""
@@ -450,12 +505,15 @@ class SetOrder:
             elif isinstance(n, ast.Call):
                 f = n.func
                 par = getattr(n, "_parent", None)
-                if isinstance(par, (ast.For, ast.comprehension)) and par.iter is n:
+                wrapper = isinstance(f, ast.Name) and f.id in PASS_THROUGH_CALLS
+                if wrapper and isinstance(par, (ast.For, ast.comprehension)) and par.iter is n:
                     continue
-                if isinstance(par, ast.Call) and call_name(par) in PASS_THROUGH_CALLS and n in par.args:
+                if wrapper and isinstance(par, ast.Call) and call_name(par) in PASS_THROUGH_CALLS and n in par.args:
                     continue    # read by the outer wrapper
                 if isinstance(f, ast.Name) and f.id in PASS_THROUGH_CALLS | {"next", "str", "repr"} and n.args:
                     reads = [(s, n) for s in self._sources(n)] if f.id in PASS_THROUGH_CALLS else [(self._unwrap(n.args[0]), n)]
+                elif isinstance(f, ast.Name) and f.id in ("sorted", "min", "max") and n.args and not self.total_key(n):
+                    reads = [(s, n) for s in self._sources(n.args[0])]
                 elif isinstance(f, ast.Attribute) and f.attr == "join" and n.args:
                     reads = [(s, n) for s in self._sources(n.args[0])]
                 elif isinstance(f, ast.Attribute) and f.attr == "pop" and not n.args:
@@ -573,6 +631,9 @@ class SetOrder:
             return [] if call_name(call) in ORDER_FREE_CALLS and not nested else [(call, f"passed to {call_name(call)}(..)")]
         if isinstance(p, ast.Call):
             nm = call_name(p)
+            if nm in ("sorted", "min", "max") and not nested and not self.total_key(p):
+                # ties keep the arrival order: the sorted sequence / the selected element still follows the set
+                return self.value_sinks(p, nested) if nm == "sorted" else [(p, f"{nm}() with a key that does not separate the elements")]
             if nm in ORDER_FREE_CALLS and not nested:
                 return []
             if nm in PASS_THROUGH_CALLS or nm in ("str", "repr", "join", "dict", "OrderedDict", "array"):
@@ -719,14 +780,13 @@ class SetOrder:
             out.extend(self.value_sinks(use, nested))
         return out
 
-    @staticmethod
-    def _sorted_before(name, use):
+    def _sorted_before(self, name, use):
         """An in-place ``name.sort(..)`` is executed on every path to ``use`` after the last (re)binding / growth of the
         list: earlier statements of the enclosing statement lists, nearest first."""
         child = enclosing_stmt(use)
         if isinstance(child, ast.Expr) and isinstance(child.value, ast.Call) and isinstance(child.value.func, ast.Attribute) \
                 and child.value.func.value is use and child.value.func.attr == "sort":
-            return True         # the sort itself
+            return self.total_key(child.value)         # the sort itself
         while child is not None and not isinstance(child, FuncNode):
             par = getattr(child, "_parent", None)
             for field in ("body", "orelse", "finalbody"):
@@ -736,7 +796,7 @@ class SetOrder:
                     for s in reversed(lst[:k]):
                         if isinstance(s, ast.Expr) and isinstance(s.value, ast.Call) and isinstance(s.value.func, ast.Attribute) \
                                 and s.value.func.attr == "sort" and isinstance(s.value.func.value, ast.Name) and s.value.func.value.id == name:
-                            return True
+                            return self.total_key(s.value)
                         for x in ast.walk(s):
                             if isinstance(x, ast.Name) and x.id == name and (isinstance(x.ctx, ast.Store) or (
                                     isinstance(getattr(x, "_parent", None), ast.Attribute) and x._parent.attr in SEQ_GROW | {"reverse"})):
@@ -885,56 +945,23 @@ def _origin(so, src, sc, depth=3):
 # differ between the runs) and the observable result of every scenario is the same.  This replaces the frozen table: the
 # verdict follows the code when it is renamed or moved into a helper, because helpers are evaluated through.
 
-def _okey(x):
-    if isinstance(x, Obj):
-        return "O:" + str(x.name)
-    if isinstance(x, (tuple, list)):
-        return "(" + ",".join(_okey(y) for y in x) + ")"
-    if isinstance(x, (set, frozenset)):
-        return "{" + ",".join(sorted(_okey(y) for y in x)) + "}"
-    if isinstance(x, dict):
-        return "{" + ",".join(sorted(f"{_okey(k)}:{_okey(v)}" for k, v in x.items())) + "}"
-    return repr(x)
-
-
 def _unordered_dicts(t):
     """dict arguments of uninterpreted calls are compared as mappings (their insertion order is not a result)"""
     from ..terms import rebuild
     return rebuild(t, lambda x: T("dict", *sorted(x.args, key=repr)) if x.op == "dict" else x)
 
 
+_okey = Symex.order_key
+
+
 class OrderSymex(Symex):
-    """Symex with a chosen iteration order for sets; logs what every iteration site iterated."""
+    """Symex with the hash-order provenance switched on: a chosen iteration order for sets and a log of what every
+    iteration site iterated (the options live in sa.symex)."""
 
     def __init__(self, *a, order=0, log=None, **kw):
         super().__init__(*a, **kw)
-        self.order, self.log = order, ({} if log is None else log)
-
-    def _ordered(self, s):
-        seq = sorted(s, key=_okey)
-        if self.order:
-            seq.reverse()
-        return seq
-
-    def iterate(self, it, node):
-        r = self._ordered(it) if isinstance(it, (set, frozenset)) else super().iterate(it, node)
-        if node is not None:
-            self.log.setdefault(id(node), []).append(tuple(_okey(x) for x in r))
-        return r
-
-    def ext_call(self, name, args, kw, node):
-        if name.split(".")[-1] in PASS_THROUGH_CALLS | {"sorted", "next", "sum", "min", "max"}:
-            args = [self.iterate(a, node) if isinstance(a, (set, frozenset)) else a for a in args]
-        return super().ext_call(name, args, kw, node)
-
-    def container_method(self, o, attr, a, kw, node):
-        if isinstance(o, set) and attr == "pop" and not a and o:
-            x = self.iterate(o, node)[0]
-            o.remove(x)
-            return x
-        if isinstance(o, str) and attr == "join" and a and isinstance(a[0], (set, frozenset)):
-            a = [self.iterate(a[0], node)] + list(a[1:])
-        return super().container_method(o, attr, a, kw, node)
+        self.set_order, self.iter_log = order, ({} if log is None else log)
+        self.log = self.iter_log
 
 
 def _idx(name, spin=""):
@@ -1115,10 +1142,52 @@ def _diff_spatial(ctx, order, log):
     return res
 
 
+def _diff_expand_itmd(ctx, order, log):
+    """the mapping of the contracted indices of a cached definition onto fresh generic indices"""
+    fn = ctx.model.fn("intermediates:RegisteredIntermediate.expand_itmd")
+    res = []
+    im = IndexModel()
+
+    def scen():
+        im.reset()
+        tgt = [_idx(n) for n in "ia"]
+        con = [_idx(n) for n in ("j", "k", "l", "b", "c")]
+        new_t = [_idx(n) for n in ("m", "d")]
+        expr = Obj(None, "definition")
+
+        def subs(sx_, a, kw):
+            m = [x for x in a if isinstance(x, (list, tuple, dict))][0]
+            cur = tgt + con
+            for old, new in (m.items() if isinstance(m, dict) else m):
+                cur = [new if x is old else x for x in cur]
+            return sym("definition[" + ",".join(x.name for x in cur) + "]")
+        expr.attrs["subs"] = subs
+        built = Obj(None, "base_expr")
+        built.attrs.update(expr=expr, target=tuple(tgt), contracted=tuple(con), _fields=("expr", "target", "contracted"))
+        me = Obj("intermediates:RegisteredIntermediate", "self")
+        me.attrs["name"] = "t1_3"
+        return me, built, new_t
+    state = {}
+
+    def args():
+        me, built, new_t = scen()
+        state["built"], state["new"] = built, new_t
+        return dict(self=me, indices="md", return_sympy=True, fully_expand=True)
+    hk = im.hooks()
+    hk.update({"validate_indices": lambda s_, a_, k_: list(state["new"]), "_build_expanded_itmd": lambda s_, a_, k_: state["built"],
+               "Indices": lambda s_, a_, k_: Obj("indices:Indices", "Indices()")})
+    sx = OrderSymex(ctx.model, inline=lambda q: q in ("indices:order_substitutions",), order=order, log=log, what="expand_itmd", max_paths=256,
+                    hooks=hk)
+    outs = sx.run(fn, args)
+    res.append(sorted((o.kind, repr(_unordered_dicts(canon(o.value))) if o.kind == "return" else o.exc) for o in outs))
+    return res
+
+
 ORDER_SCENARIOS = (("generate_code.optimize_contractions:_group_objects", _diff_group_objects),
                    ("tensor_names:TensorNames.rename_tensors", _diff_rename_tensors),
                    ("func:evaluate_deltas", _diff_evaluate_deltas),
-                   ("spatial_orbitals:transform_to_spatial_orbitals", _diff_spatial))
+                   ("spatial_orbitals:transform_to_spatial_orbitals", _diff_spatial),
+                   ("intermediates:RegisteredIntermediate.expand_itmd", _diff_expand_itmd))
 
 
 def order_differential(ctx):
@@ -1325,7 +1394,7 @@ class IndexModel:
         def get_generic_indices(sx, a, kw):
             ret = {}
             for key, n in kw.items():
-                if not isinstance(n, int):
+                if not isinstance(n, int) or not isinstance(key, str):
                     return NotImplemented
                 if n == 0:
                     continue
